@@ -82,6 +82,11 @@ M = [
      "        for atom, change_dict in self._atom_stereo_change.items():\n            if stereo := (change_dict[Change.BROKEN] or change_dict[Change.FLEETING]):\n                reactant._atom_stereo[atom] = stereo\n"),
     ("m29_tbp_inversion_is_rotation", "C01 C03 C06", S + "stereodescriptors.py",
      "    inversion = (0, 1, 2, 3, 5, 4)\n", "    inversion = (0, 2, 1, 3, 5, 4)\n"),
+    ("m31_eq_bond_roles_unchecked", "C02 C06", S + "graphs/crg.py",
+     "            if o_attrs is None or (\n", "            if o_attrs is None and (\n"),
+    ("m32_hash_seeded_by_string_hash", "C03", S + "algorithms/color_refine.py",
+     "    initial_color_array = np.array(graph.atom_types, dtype=np.int64)\n    color_array = color_refine_mg(graph, atom_labels=initial_color_array)\n",
+     "    initial_color_array = np.array([hash(str(t)) for t in graph.atom_types], dtype=np.int64)\n    color_array = color_refine_mg(graph, atom_labels=initial_color_array)\n"),
     ("m30_hash_multiset_unsorted_for_reaction", "C03", S + "algorithms/color_refine.py",
      "    color_array = color_refine_crg(graph)\n    return int(numpy_int_multiset_hash(color_array))",
      "    color_array = color_refine_crg(graph)\n    return int(numpy_int_tuple_hash(color_array))"),
